@@ -364,6 +364,14 @@ pub fn check_c08(seed: u64, i: usize) -> DefReport {
             }
             d
         }
+        _ if i % 9 == 2 => {
+            // byte-mode definitions with default priorities (literal runs of every kind next to class patterns)
+            let mut d = gen::f4_bytes(&mut rng, &name);
+            for p in d.pats.iter_mut() {
+                p.priority = None;
+            }
+            d
+        }
         _ => gen::mixed(&mut rng, &name, i / 3),
     };
     let a = analyze::run_generate(&def);
@@ -402,6 +410,17 @@ pub fn check_c08(seed: u64, i: usize) -> DefReport {
             prio[leaf] = e;
         } else if p.kind == PatKind::Token {
             prio[leaf] = 2 * p.lit.data.len();
+        } else if let Ok(subs) = refa::resolve_subpatterns(&def) {
+            // default regex priority by the documented rule where it is unambiguous
+            if let Ok(text) = refa::inline_subpatterns(&refa::lit_regex_text(&p.lit), &subs) {
+                if let Ok(info) = prio::ast_info(&text) {
+                    if !info.fuzzy && !p.lit.bytes {
+                        prio[leaf] = 2 * info.units;
+                    } else if p.lit.bytes && !text.contains("(?") && info.units == info.units_valid_runs_as_chars {
+                        prio[leaf] = 2 * info.units;
+                    }
+                }
+            }
         }
     }
     let (groups, tuples, capped) = product::reference_ambiguities(&reference, &prio, PRODUCT_CAP);
@@ -455,11 +474,12 @@ pub fn check_c08(seed: u64, i: usize) -> DefReport {
 pub fn check_c09(seed: u64, i: usize) -> DefReport {
     let mut rng = Rng::derive(seed ^ 0xC09, i as u64);
     let name = format!("D{i}");
-    let mut def = match i % 5 {
+    let mut def = match i % 6 {
         0 => gen::f3_unicode(&mut rng, &name),
         1 => gen::f6_loops(&mut rng, &name),
         2 => gen::f11_literal(&mut rng, &name),
         3 => gen::f5_look(&mut rng, &name),
+        4 => gen::f4_bytes(&mut rng, &name),
         _ => gen::f1_soup(&mut rng, &name),
     };
     // default priorities on half of the patterns, explicit on the rest
@@ -474,6 +494,11 @@ pub fn check_c09(seed: u64, i: usize) -> DefReport {
         let res = ["[a-z]+", "[a-zé]+[0-9]?", "a.?c?", "(if|else)", "[a-z][a-z0-9]*", "\\w+", "[^ ]+", "-+", "a(b|c)?", "..?.?", "(?i:AB)"];
         def.push(vmon::spec::Pat::token(rng.pick_str(&lits), 0));
         def.push(vmon::spec::Pat::regex(rng.pick_str(&res), 0));
+        if rng.chance(1, 2) {
+            // a pattern of exactly the literal's default priority, and a less specific one declared last
+            def.push(vmon::spec::Pat::regex(rng.pick_str(&["[a-z][a-z]", "i[a-z]", "..", "[a-z]{3}", "a[a-z]", "[a-zß][a-zß]"]), 0));
+            def.push(vmon::spec::Pat::regex(rng.pick_str(&["[a-z]+", "\\w+", "[^ ]+"]), 0));
+        }
         def.normalize();
     }
     let a = analyze::run_generate(&def);
@@ -532,6 +557,12 @@ pub fn check_c09(seed: u64, i: usize) -> DefReport {
                             rep.violations.push(violation("C09", "regex-priority-semantic-assert", &format!("leaf {leaf}: pattern {text:?} has default priority {got} > 2 x shortest match {sc}"), &def, None, None));
                         }
                     }
+                } else if p.lit.bytes && !text.contains("(?") {
+                    // byte-string pattern without inline flags: a literal byte is one "literal character"; the
+                    // only other defensible reading counts maximal valid UTF-8 runs in characters
+                    if got != 2 * info.units && got != 2 * info.units_valid_runs_as_chars {
+                        rep.violations.push(violation("C09", "regex-priority-bytes", &format!("leaf {leaf}: byte pattern {text:?} has default priority {got}; the rule gives 2 x {} (bytes) or 2 x {} (valid UTF-8 runs as characters)", info.units, info.units_valid_runs_as_chars), &def, None, None));
+                    }
                 } else if let (Some(sc), Some(sb)) = (sem_chars, sem_bytes) {
                     if !info.has_assertion && !(2 * sc <= got && got <= 2 * sb.max(info.units)) {
                         rep.violations.push(violation("C09", "regex-priority-range", &format!("leaf {leaf}: pattern {text:?} has default priority {got}, outside 2 x [{sc} chars, {sb} bytes]"), &def, None, None));
@@ -551,6 +582,9 @@ pub fn check_c09(seed: u64, i: usize) -> DefReport {
                         continue;
                     }
                     if let refa::Attempt::Match { end, leaves, .. } = reference.attempt(text, 0, &prio_v) {
+                        if end == text.len() && leaves.contains(&leaf) && leaves.len() > 1 {
+                            rep.violations.push(violation("C09", "literal-ties-without-ambiguity-error", &format!("token leaf {leaf} ties on its own text with leaves {leaves:?} at the top priority, yet the definition was accepted"), &def, Some(text), None));
+                        }
                         if end == text.len() && !leaves.contains(&leaf) {
                             // some other leaf wins the literal's own text
                             let w = leaves[0];
